@@ -1,5 +1,6 @@
 """Contract DSL, shapes, and the per-contract verification driver."""
 import ast
+import os
 import time
 import z3
 
@@ -1135,6 +1136,7 @@ class Result(object):
         self.notes = []
         self.solver_time = 0.0
         self.solver_calls = 0
+        self.recheck = None
         self.wall = 0.0
         self.sources = {}
         self.bounded = contract.bounded
@@ -1173,6 +1175,8 @@ def verify(world_factory, c, registry_by_name=None):
     ex.hooks['apply_contract'] = apply_contract
     ex.hooks['current_contract'] = c
     ex.hooks.update(c.hooks)
+    if os.environ.get('PYVC_RECHECK') == '1' and not c.expect_fail:
+        ex.hooks['recheck'] = True
     for key, ls in c.loops.items():
         ex.loop_specs[key] = ls
     if registry_by_name:
@@ -1364,6 +1368,9 @@ def verify(world_factory, c, registry_by_name=None):
         for tg in sorted(LOOPS_SEEN - LOOPS_ENTERED):
             res.undecided.append('checker error: annotated loop %s is reached but its body is never entered '
                                  '(vacuous loop contract)' % tg)
+    res.recheck = ex.recheck_stats
+    for dmsg in ex.recheck_stats['disagree'][:5]:
+        res.undecided.append('checker error: solver disagreement: ' + dmsg)
     res.notes = list(dict.fromkeys(ex.notes))
     res.solver_time = ex.solver_time
     res.solver_calls = ex.solver_calls
